@@ -129,49 +129,12 @@ func checkC05(e *Env) {
 	})
 	// several entropies carved out of one caller-owned buffer and encoded one after the other:
 	// each sentence must decode to its own slice as the caller wrote it
-	slabs, slabSentences := e.pick(300, 6000), 0
-	rs := rng.New(e.Seed, "C05-slab")
-	var slabOps []plan.Op
-	for k := 0; k < slabs; k++ {
-		size := ref.EntSizes[k%5]
-		slabOps = append(slabOps, plan.Op{I: k, Fn: "encslab", L: int64(k % ref.NLang), N: int64(size), E: hx(rs.Bytes(size * (2 + k%5)))})
-	}
-	parallel(16, e.Workers, func(part int) {
-		var ops []plan.Op
-		for k := part; k < len(slabOps); k += 16 {
-			op := slabOps[k]
-			op.I = len(ops)
-			ops = append(ops, op)
+	slabSentences := e.runSlabs(drv, "C05", e.pick(300, 6000), func(op *plan.Op, j int, want []byte, sentence string) string {
+		back, _ := e.Model.DecodeLoose(strings.Fields(sentence), int(op.L))
+		if !bytes.Equal(back, want) {
+			return fmt.Sprintf("the mnemonic decodes to %x, the caller's slice held %x", back, want)
 		}
-		res, died := e.RunProc(drv, ops, nil, 0)
-		if died != "" {
-			e.Violate(&Violation{What: "the process died while encoding entropies carved from one buffer: " + oneLine(died, 300), Ops: ops[:min(len(res)+1, len(ops))]})
-			return
-		}
-		for i := range res {
-			op := &ops[i]
-			buf, size := op.Entropy(), int(op.N)
-			sents := strings.Split(string(unhex(res[i].Out)), "\n")
-			for j := 0; (j+1)*size <= len(buf); j++ {
-				want := buf[j*size : (j+1)*size]
-				var back []byte
-				if j < len(sents) {
-					back, _ = e.Model.DecodeLoose(strings.Fields(sents[j]), int(op.L))
-				}
-				if !bytes.Equal(back, want) {
-					e.Violate(&Violation{What: fmt.Sprintf("entropy %d of %d carved from one %d-byte buffer (%s): the mnemonic decodes to %x, the caller's slice held %x — encoding an earlier slice changed memory beyond it", j, len(buf)/size, len(buf), ref.Names[op.L], back, want),
-						Ops: []plan.Op{*op}, Expected: map[string]string{"decoded_entropy": hx(want)}, Observed: res[i]})
-					return
-				}
-				mu.Lock()
-				slabSentences++
-				mu.Unlock()
-			}
-			if res[i].IA != bufAfterHex(buf, false) {
-				e.Violate(&Violation{What: fmt.Sprintf("the caller's %d-byte buffer was modified while entropies carved from it were encoded: before %s, afterwards %s", len(buf), bufAfterHex(buf, false), res[i].IA), Ops: []plan.Op{*op}, Observed: res[i]})
-				return
-			}
-		}
+		return ""
 	})
 	// every single-bit flip must change the mnemonic
 	flipsCompared := 0
@@ -206,7 +169,61 @@ func checkC05(e *Env) {
 		"sentences_in_collision_map":      len(seen),
 		"repeated_sentences_examined":     collisionsExamined,
 		"calls_inside_histories":          histCalls,
-		"children":                        stats.Children,
-		"child_deaths":                    stats.Deaths,
+		"sentences_from_entropies_carved_out_of_one_buffer": slabSentences,
+		"children":     stats.Children,
+		"child_deaths": stats.Deaths,
 	}, []string{"golden lists are the canonical lists", "the harness reference decoder (self-tested on published vectors)"})
+}
+
+// runSlabs encodes, in child processes, several entropies carved out of one
+// caller-owned buffer one after the other ("encslab") and hands every sentence
+// with the slice the caller wrote to judge (which returns "" when satisfied). It
+// also checks that the buffer itself is unchanged afterwards.
+func (e *Env) runSlabs(drv, label string, slabs int, judge func(op *plan.Op, j int, want []byte, sentence string) string) int {
+	rs := rng.New(e.Seed, label+"-slab")
+	var slabOps []plan.Op
+	for k := 0; k < slabs; k++ {
+		size := ref.EntSizes[k%5]
+		slabOps = append(slabOps, plan.Op{I: k, Fn: "encslab", L: int64(k % ref.NLang), N: int64(size), E: hx(rs.Bytes(size * (2 + k%5)))})
+	}
+	var mu sync.Mutex
+	sentences := 0
+	parallel(16, e.Workers, func(part int) {
+		var ops []plan.Op
+		for k := part; k < len(slabOps); k += 16 {
+			op := slabOps[k]
+			op.I = len(ops)
+			ops = append(ops, op)
+		}
+		res, died := e.RunProc(drv, ops, nil, 0)
+		if died != "" {
+			e.Violate(&Violation{What: "the process died while encoding entropies carved from one buffer: " + oneLine(died, 300), Ops: ops[:min(len(res)+1, len(ops))]})
+			return
+		}
+		for i := range res {
+			op := &ops[i]
+			buf, size := op.Entropy(), int(op.N)
+			sents := strings.Split(string(unhex(res[i].Out)), "\n")
+			for j := 0; (j+1)*size <= len(buf); j++ {
+				want := buf[j*size : (j+1)*size]
+				sentence := ""
+				if j < len(sents) {
+					sentence = sents[j]
+				}
+				if why := judge(op, j, want, sentence); why != "" {
+					e.Violate(&Violation{What: fmt.Sprintf("entropy %d of %d carved from one %d-byte caller-owned buffer (%s): %s — encoding an earlier slice changed memory beyond it", j, len(buf)/size, len(buf), ref.Names[op.L], why),
+						Ops: []plan.Op{*op}, Expected: map[string]string{"entropy": hx(want)}, Observed: res[i]})
+					return
+				}
+				mu.Lock()
+				sentences++
+				mu.Unlock()
+			}
+			if res[i].IA != bufAfterHex(buf, false) {
+				e.Violate(&Violation{What: fmt.Sprintf("the caller's %d-byte buffer was modified while entropies carved from it were encoded: before %s, afterwards %s", len(buf), bufAfterHex(buf, false), res[i].IA), Ops: []plan.Op{*op}, Observed: res[i]})
+				return
+			}
+		}
+	})
+	return sentences
 }
